@@ -25,6 +25,12 @@ var c15LogOnce sync.Once
 
 // c15Start creates a fresh server on the workspace `root` (process-global config re-initialised as main() does).
 func c15Start(root string) (*c15Server, error) {
+	return c15StartOpts(root, map[string]interface{}{"client": "vsc", "LocalRun": true, "AllEnable": true,
+		"CheckSyntax": true, "CheckAnnotateType": true})
+}
+
+// c15StartOpts: the same with the given initializationOptions (nil = the client sends none)
+func c15StartOpts(root string, opts map[string]interface{}) (*c15Server, error) {
 	c15LogOnce.Do(func() { log.InitLog(false) })
 	common.GlobalConfigDefautInit()
 	common.GConfig.IntialGlobalVar()
@@ -32,15 +38,37 @@ func c15Start(root string) (*c15Server, error) {
 	cch, sch := channel.Direct()
 	srv.Start(sch)
 	s := &c15Server{cch: cch, srv: srv}
-	_, err := s.call("initialize", map[string]interface{}{
-		"processId": nil, "rootPath": root, "rootUri": "file://" + root, "capabilities": map[string]interface{}{},
-		"initializationOptions": map[string]interface{}{"client": "vsc", "LocalRun": true, "AllEnable": true,
-			"CheckSyntax": true, "CheckAnnotateType": true},
-	})
+	params := map[string]interface{}{
+		"processId": nil, "rootPath": root, "rootUri": "file://" + root, "capabilities": map[string]interface{}{}}
+	if opts != nil {
+		params["initializationOptions"] = opts
+	}
+	_, err := s.call("initialize", params)
 	if err != nil {
 		return nil, err
 	}
 	return s, nil
+}
+
+// hover text at (line, ch) (0-based), "" when there is none
+func (s *c15Server) hover(uri string, line, ch int) (string, error) {
+	res, err := s.call("textDocument/hover", map[string]interface{}{
+		"textDocument": map[string]interface{}{"uri": uri},
+		"position":     map[string]interface{}{"line": line, "character": ch}})
+	if err != nil {
+		return "", err
+	}
+	var h struct {
+		Contents struct {
+			Value string `json:"value"`
+		} `json:"contents"`
+	}
+	if len(res) > 0 && string(res) != "null" {
+		if err := json.Unmarshal(res, &h); err != nil {
+			return "", nil
+		}
+	}
+	return h.Contents.Value, nil
 }
 
 func (s *c15Server) stop() {
